@@ -49,6 +49,10 @@ def check_arity(nn: int, nv: int, na: int, dup: bool) -> bool:
     names = (['x', 'x', 'y'] if dup else ['x', 'y', 'z'])[:nn]
     ld = fresh_loader()
     ld.statements = [stmt(L.CreateClassStmt('A', [('x', 'INTEGER'), ('y', 'INTEGER')][:na])),
+                     stmt(L.CreateClassStmt('Z', [('k', 'INTEGER')])),
+                     # the LAST attribute of A is referential
+                     stmt(L.CreateAssociationStmt('R1', 'A', 'MC', [['x', 'y'][na - 1]], '', 'Z', '1C', ['k'], '')),
+                     stmt(L.CreateInstanceStmt('Z', ['1'], None)),
                      stmt(L.CreateInstanceStmt('A', ['1', '2', '3'][:nv], names if nn else None))]
     try:
         ld.build_metamodel()
